@@ -92,7 +92,7 @@ def run(tier):
         c.add_trace_result(r, sub, key_fn, what_fn, sample_n=1)
         n_rejects += len(r['rejects'])
     if not n_rejects:
-        good = [e for e in events if e['ev'] == 'pseudo' and e['via'] in ('api', 'api_hist', 'cli', 'cli_nosrc')
+        good = [e for e in events if e['ev'] == 'pseudo' and e['via'] in ('api', 'api_hist', 'cli', 'cli_nosrc', 'cli_halfmapped')
                 and len(e.get('records', [])) >= 1
                 and any(o['op'] == 'N' for o in e['records'][0]['cigar'])
                 and any('n' in t for t in e['records'][0]['md']) and 'TF' in e['records'][0]['tags']][:3]
